@@ -76,6 +76,8 @@ def confirm(name):
     m = load_meta(name)
     wt = "/tmp/conf/" + name
     sh(["git", "-C", "/repo", "worktree", "remove", "--force", wt])
+    sh(["git", "-C", "/repo", "worktree", "prune"])
+    sh(["rm", "-rf", wt])
     os.makedirs("/tmp/conf", exist_ok=True)
     rc, out = sh(["git", "-C", "/repo", "worktree", "add", "-q", "--detach", wt, "HEAD"])
     res = dict(at=time.strftime("%Y-%m-%d %H:%M"), repo_head=sh(["git", "-C", "/repo", "rev-parse", "--short", "HEAD"])[1].strip())
